@@ -27,6 +27,7 @@ const (
 	symBytes                   // concrete length, symbolic bytes (ASCII)
 	symDec                     // decimal rendering of an integer term
 	symOpaque                  // nothing known (formatted messages)
+	symConcat                  // lazy concatenation of parts (lowered to bytes only when bytes are needed)
 )
 
 type SymStr struct {
@@ -40,6 +41,7 @@ type SymStr struct {
 	id     int64
 	name   string // nondet name for symLen (native side builds a string of that length)
 	lowered *SymStr // symDec: byte-level form, created on first use
+	parts   []StrV  // symConcat
 }
 
 // IfaceV is an interface value; typ == nil is the nil interface.
